@@ -504,7 +504,7 @@ from ..variants import V  # noqa: E402
 
 _U = 'src/emsarray/conventions/ugrid.py'
 VARIANTS = [
-    V('C10', 'well-formed-face-node-table-refused', 'src/emsarray/conventions/ugrid.py', "        expected = {self.face_dimension, self.max_node_dimension}\n        if actual != expected:", "        expected = {self.face_dimension, self.max_node_dimension}\n        if actual == expected:", 'R10.9'),
+    V('C10', 'well-formed-face-node-table-refused', 'src/emsarray/conventions/ugrid.py', "        if actual != expected:\n            warnings.warn(\n                f\"Got a face_node_connectivity variable", "        if actual == expected:\n            warnings.warn(\n                f\"Got a face_node_connectivity variable", 'R10.9'),
     V('C10', 'one-based-not-shifted', 'src/emsarray/conventions/ugrid.py', "        if start_index != 0:\n            values = values - start_index", "        if start_index == 0:\n            values = values - start_index", 'R10.1'),
     V('C10', 'benign-shift-unconditional', 'src/emsarray/conventions/ugrid.py', "        if start_index != 0:\n            values = values - start_index", "        values = values - start_index", None),
     V('C10', 'pair-dimension-any-size-two', _U, "        if self.has_edge_dimension:\n            for key in ['edge_node_connectivity', 'edge_face_connectivity']:\n                name = self.mesh_attributes.get(key)\n                if name in self.dataset.variables:\n                    for dimension in self.dataset.variables[name].dims:\n                        if dimension != self.edge_dimension and self.dataset.sizes[dimension] == 2:\n                            return dimension\n", "", 'R10.5'),
